@@ -175,6 +175,7 @@ type World struct {
 	OnDeliver func(rec *DgramRec, data []byte, damaged bool)
 	bytes     [2]int64 // bytes put on the wire per direction
 	trace     uint64
+	raw       [2][][]byte // the first datagrams of each direction, as put on the wire
 }
 
 func NewWorld(t *testing.T, seed uint64, n *WNet, res *KResult) *World {
@@ -189,6 +190,13 @@ func (w *World) SetFaults(fs []WFault) {
 		k := [2]int{f.Dir, f.Ord}
 		w.explicit[k] = append(w.explicit[k], f)
 	}
+}
+
+func (w *World) rawDatagram(dir, ord int) []byte {
+	if ord < len(w.raw[dir]) {
+		return w.raw[dir][ord]
+	}
+	return nil
 }
 
 func (w *World) NowNS() int64 { return int64(time.Since(w.Start)) }
@@ -247,6 +255,9 @@ func (w *World) SendPacket(p simnet.Packet) error {
 	rec := &DgramRec{Dir: dir, Ord: ord, SentNS: now, Size: len(p.Data), Hash: KHashS(string(p.Data))}
 	rec.Pkts = w.Tap.Datagram(dir, ord, caddr, p.Data)
 	w.Log[dir] = append(w.Log[dir], rec)
+	if len(w.raw[dir]) < 256 {
+		w.raw[dir] = append(w.raw[dir], p.Data)
+	}
 	w.bytes[dir] += int64(len(p.Data))
 	w.trace = KMix(w.trace, uint64(now), uint64(dir), uint64(len(p.Data)), rec.Hash)
 	if w.OnSend != nil {
